@@ -45,8 +45,17 @@ def log(*a):
 # ---------------------------------------------------------------------------
 def build(variant='rel'):
     t0 = time.time()
-    p = subprocess.run(['make', '-s', '-j%d' % NCPU, 'VARIANT=' + variant], cwd=VERIF,
-                       stdout=subprocess.PIPE, stderr=subprocess.STDOUT, text=True)
+    # one build at a time (checks may be started concurrently)
+    import fcntl
+    os.makedirs(os.path.join(VERIF, 'build'), exist_ok=True)
+    lock = open(os.path.join(VERIF, 'build', '.lock'), 'w')
+    fcntl.flock(lock, fcntl.LOCK_EX)
+    try:
+        p = subprocess.run(['make', '-s', '-j%d' % NCPU, 'VARIANT=' + variant], cwd=VERIF,
+                           stdout=subprocess.PIPE, stderr=subprocess.STDOUT, text=True)
+    finally:
+        fcntl.flock(lock, fcntl.LOCK_UN)
+        lock.close()
     if p.returncode != 0:
         log(p.stdout[-4000:])
         raise Machinery('build failed (variant %s)' % variant)
